@@ -1826,6 +1826,11 @@ func (p *scionPacketProcessor) processOHP() disposition {
 		// TODO parameter problem -> invalid path
 		return errorDiscard("error", errMalformedPath)
 	}
+	if int(s.HdrLen)*slayers.LineLen != slayers.CmnHdrLen+s.AddrHdrLen()+ohp.Len() {
+		// The header is re-serialized in place below, aligned to the start of the payload. That
+		// only reproduces the packet if the header has exactly the length of its content.
+		return errorDiscard("error", errMalformedPath)
+	}
 
 	// OHP leaving our IA
 	if p.ingressFromLink == 0 {
